@@ -231,3 +231,48 @@ func ReuseSrcs(maxNodes int) []Src {
 	}
 	return out
 }
+
+// DeepSrcs returns chains of three nested groups (leaves at nesting depth 4, one
+// level deeper than the bounded enumeration): T{N1 g1{N2 g2{N3 g3{F1, F2}}}} for
+// repetition choices of the groups and of the two innermost leaves; with
+// siblings, every group additionally carries a trailing optional leaf. reps
+// lists the repetition types the groups range over.
+func DeepSrcs(groupReps []int, withSiblings bool) []Src {
+	var out []Src
+	n := 0
+	for _, r1 := range groupReps {
+		for _, r2 := range groupReps {
+			for _, r3 := range groupReps {
+				for la := 0; la < 3; la++ {
+					for lb := 0; lb < 3; lb++ {
+						if withSiblings && !(la == 0 && lb == 1) {
+							continue
+						}
+						inner := []*Node{{Rep: la}, {Rep: lb}}
+						g3 := &Node{Group: true, Rep: r3, Kids: inner}
+						k2 := []*Node{g3}
+						if withSiblings {
+							k2 = append(k2, &Node{Rep: 1})
+						}
+						g2 := &Node{Group: true, Rep: r2, Kids: k2}
+						k1 := []*Node{g2}
+						if withSiblings {
+							k1 = append(k1, &Node{Rep: 1})
+						}
+						g1 := &Node{Group: true, Rep: r1, Kids: k1}
+						f := []*Node{{Rep: 0}, g1}
+						sig := Sig(f)
+						off := SigOffset(sig, 8)
+						tag := "deep"
+						if withSiblings {
+							tag = "deeps"
+						}
+						out = append(out, Src{Name: fmt.Sprintf("d%s%04d", tag[4:], n), Type: "T", Sig: fmt.Sprintf("%s@%d", sig, off), Code: Source(f, EmitOpts{Offset: off})})
+						n++
+					}
+				}
+			}
+		}
+	}
+	return out
+}
